@@ -23,8 +23,8 @@ cache file of the same case:
   the loaded durations.
 """
 import os
-import pickle
 import shutil
+import types
 
 from harness.common import HarnessError
 from harness.gen import a12_cache as G
@@ -132,7 +132,23 @@ def check_case(ctx, case, drv, n=[0]):
                               expected="same outcome", observed=type(m2).__name__)
             return
         s1 = G.signature(m1, NPTS, seed)
-        ok2, m2, msg2 = G.outcome(api.transfer_model, d, name, dict(o))
+        # what load_model unpickles is observed at `pickle.load(s)` (the file format around it is the code's business)
+        real_pickle, seen_db = api.pickle, []
+
+        def _spy(fn):
+            def call(*a, **k):
+                r = fn(*a, **k)
+                if isinstance(r, dict) and "version" in r:
+                    seen_db.append(r)
+                return r
+            return call
+        ns = types.SimpleNamespace(**{k: getattr(real_pickle, k) for k in dir(real_pickle) if not k.startswith("__")})
+        ns.load, ns.loads = _spy(real_pickle.load), _spy(real_pickle.loads)
+        api.pickle = ns
+        try:
+            ok2, m2, msg2 = G.outcome(api.transfer_model, d, name, dict(o))
+        finally:
+            api.pickle = real_pickle
         if not ok2:
             ctx.case(case, nontrivial=True)
             ctx.violation("loading the cache written for this model raised %s: %s" % (m2, msg2), case,
@@ -155,7 +171,10 @@ def check_case(ctx, case, drv, n=[0]):
                           expected="fresh: see paths", observed=df)
             return
         if drv is not None and served and _names_unique(m1):
-            correspond(ctx, case, drv, d, name, m1, m2, seed)
+            if seen_db:
+                correspond(ctx, case, drv, seen_db[-1], m1, m2, seed)
+            else:
+                ctx.tie_broken("load_model:unpickled-db-not-observed", "pickle.load/loads returned no cache dictionary")
         elif served:
             ctx.count("duplicate-names-skipped")
         del m1, m2
@@ -202,11 +221,9 @@ def _meta_at(f, pts):
     return per_pt
 
 
-def correspond(ctx, case, drv, d, name, m1, m2, seed):
+def correspond(ctx, case, drv, db, m1, m2, seed):
     import casadi as ca
     api = _api()
-    with open(os.path.join(d, name + ".pymoca_cache"), "rb") as fh:
-        db = pickle.load(fh)
     pts = G.param_points(m1, NPTS, seed)
     pvec = ca.veccat(*[v.symbol for v in m1.parameters])
     # ---- save half: fresh Model -> (None-ness, dependency matrix, metadata matrix) -------------
